@@ -35,11 +35,23 @@ ValUnknown(v) == CASE v.t = "s" -> TextUnknown(v.v)
                    [] v.t = "o" -> \E j \in DOMAIN v.v : TextUnknown(v.v[j][1]) \/ ValUnknown(v.v[j][2])
                    [] OTHER -> FALSE
 
+\* an iteration operator whose element expression is ill-formed: whether that is an error when the collection turns
+\* out to be empty (the expression is never reached) is left open by the statements (DESIGN 5.1) - syntactic over-approximation
+RECURSIVE HasOpenBody(_)
+HasOpenBody(r) ==
+  CASE r.t = "a" -> \E j \in DOMAIN r.v : HasOpenBody(r.v[j])
+    [] IsOperation(r) ->
+         LET k == KeyOf(r)
+             as == Operands(r)
+         IN \/ k \in {K_map, K_filter, K_reduce, K_all, K_some, K_none} /\ Len(as) >= 2 /\ ~ParseOK(as[2])
+            \/ \E j \in DOMAIN as : HasOpenBody(as[j])
+    [] OTHER -> FALSE
+
 Verdict(r) ==
   IF "crash" \in DOMAIN r.out THEN "crash"
   ELSE LET e == Eval(r.rule, r.data)
        IN IF ValUnknown(e.v) \/ \E j \in DOMAIN e.log : ValUnknown(e.log[j]) THEN "skipped"
-          ELSE IF r.out.ok # e.ok THEN "bad-okness"
+          ELSE IF r.out.ok # e.ok THEN (IF HasOpenBody(r.rule) THEN "open-body" ELSE "bad-okness")
           ELSE IF e.ok /\ ~SameOut(r.out.v, e.v) THEN "bad-value"
           ELSE IF e.ok /\ ~SameLogBag(r.out.log, e.log) THEN "bad-log"
           \* which variant of the error enumeration: pinned by no property, reported as drift
